@@ -849,7 +849,16 @@ func (t *TNC) evFrames(sc *scriptCtx, e Ev) []outFrame {
 		}
 		rec := t.newEmission(t.dataStream(), e.Kind, sc.name)
 		rec.Payload, rec.Conn = payload, conn
-		return []outFrame{cuts(outFrame{stream: rec.Stream, bytes: t.frameData(strings.ToUpper(e.Kind), payload), rec: rec})}
+		out := []outFrame{cuts(outFrame{stream: rec.Stream, bytes: t.frameData(strings.ToUpper(e.Kind), payload), rec: rec})}
+		if e.Kind == "arq" && e.Arg == "" {
+			for i := 1; i < clamp(e.Rep, 1, 8192); i++ {
+				pl := Pattern(e.Seed+i, clamp(e.Size, 0, 65532))
+				rec := t.newEmission(t.dataStream(), e.Kind, sc.name)
+				rec.Payload, rec.Conn = pl, conn
+				out = append(out, outFrame{stream: rec.Stream, bytes: t.frameData("ARQ", pl), rec: rec})
+			}
+		}
+		return out
 	case "dframe":
 		b := decodeHex(e.Hex)
 		if len(b) > 65535 {
